@@ -111,6 +111,9 @@ def _compact(ctx, tag, n1, n2, k, nanable=True, t0=0, filler=0):
     ds["Collocations/interval"] = ("Collocations/collocation", np.arange(k).astype(float))
     ds["Collocations/distance"] = ("Collocations/collocation", np.arange(k).astype(float) / 2)
     ds["Collocations/group"] = ("Collocations/group", ["P", "S"])
+    import pandas as pd
+    # like the output of collocate(): the time span of the primaries it holds
+    ds.attrs = {"start_time": str(pd.Timestamp(ds["P/time"].values.min())), "end_time": str(pd.Timestamp(ds["P/time"].values.max()))}
     return ds, ps, ss
 
 
@@ -205,15 +208,23 @@ def k_expand(ctx):
 @harness("C13.concat", cases=lambda tier: [((1, 1, 1), (1, 1, 1)), ((1, 2, 2), (2, 1, 2)), ((2, 2, 2), (1, 1, 1)),
                                            ((1, 2, 2), (2, 1, 2), (1, 1, 1)), ((1, 1, 1), (1, 2, 2), (2, 2, 2), (1, 1, 1))]
          + ([((2, 2, 3), (2, 2, 2)), ((2, 1, 2), (2, 2, 3))] if tier == "thorough" else []),
-         expect=lambda c: ["expand-of-concat-is-concat-of-expands", "pairs-valid-after-concat", "every-point-used"])
+         expect=lambda c: ["expand-of-concat-is-concat-of-expands", "pairs-valid-after-concat", "every-point-used",
+                           "time-span-attributes-cover-what-is-held"])
 def k_concat(ctx):
     sizes = ctx.case
-    parts = [_compact(ctx, "abcd"[i], *sz, nanable=False, t0=10 * i)[0] for i, sz in enumerate(sizes)]
+    # (the parts overlap and are not in temporal order: a bundle whose last member ends before an earlier one)
+    parts = [_compact(ctx, "abcd"[i], *sz, nanable=False, t0=[20, 0, 21, 5][i])[0] for i, sz in enumerate(sizes)]
     with _env(ctx):
         exps = [CC.expand(p) for p in parts]
         merged = CL.concat_collocations([p.copy(deep=True) for p in parts])
         em = CC.expand(merged)
     k = sum(sz[2] for sz in sizes)
+    import pandas as pd
+    alltimes = np.concatenate([p["P/time"].values for p in parts])
+    ctx.check("time-span-attributes-cover-what-is-held",
+              merged.attrs.get("start_time") == str(pd.Timestamp(alltimes.min()))
+              and merged.attrs.get("end_time") == str(pd.Timestamp(alltimes.max())),
+              detail="attrs %r, primaries from %s to %s" % (dict(merged.attrs), alltimes.min(), alltimes.max()))
     ctx.check("expand-of-concat-is-concat-of-expands", em.sizes.get("collocation") == k)
     pairs = merged["Collocations/pairs"].values
     n1, n2 = merged.sizes["P/collocation"], merged.sizes["S/collocation"]
@@ -240,7 +251,7 @@ BOUNDS = {"quick": {"row assignment": "every index vector of length k <= 4 over 
                     "collapse / expand": "compact datasets with (n1, n2, k) in {(1,1,1),(1,2,2),(2,1,2),(2,2,2),(2,2,3)}: every valid pair list "
                                          "(each pair once, every stored point used, any order), every NaN pattern, all real data; "
                                          "a 1-D variable and one with an extra dimension of size 2; either group as reference",
-                    "concat": "two datasets of those sizes"},
+                    "concat": "two to four datasets of those sizes, overlapping in time and not in temporal order (start_time / end_time attributes = span of all primaries held)"},
           "thorough": {"row assignment": "k <= 5", "collapse / expand": "adds (2,3,3), (3,2,3), (2,2,4), (3,3,3)"}}
 OUTSIDE = ["custom collapser functions", "the >= 1000-pair numba path (same function object, jit-compiled)",
            "xarray internals (executed for real on object arrays)", "floating-point rounding of mean/std"]
